@@ -1,4 +1,5 @@
 import Psa.EvalProofs
+import Psa.ExpectedFacts
 /-! # C02 — the built-in checks implement the Pod Security Standards at every version
 Property theorems only; helper lemmas live in `Psa/Standard.lean`, `Psa/C02.lean`, `Psa/RegistryProofs.lean`. -/
 namespace PSA.Props
@@ -27,9 +28,19 @@ theorem C02_restricted (v : Ver) (p : Pod) (hv : v.requestable) (hp : ApiValid p
   rw [evalPodModel_allowed, C02_tables_published]
   exact PSA.C02_restricted _ ⟨by decide, by decide⟩ v p hv ((apiValid_tables _ rfl p).mp hp)
 
+/-- tie obligation (F4): every registered revision reads only the API fields the model pod carries for that control, so
+    "fields the standard does not mention never change a verdict" transfers from the model to the code -/
+theorem C02_reads_modelled : Expected.readsWithin Generated.readSets Expected.readSets = true := by decide
+
+/-- tie obligation: the annotation keys and the volume-type names of the code are the model's -/
+theorem C02_keys : Generated.seccompPodAnnKey = seccompPodAnnKey ∧ Generated.seccompContainerAnnPrefix = seccompContainerAnnPrefix ∧
+    Generated.appArmorAnnKeyPrefix = appArmorAnnKeyPrefix := by decide
+
 #print axioms C02_tables_published
 #print axioms C02_meta_modelled
 #print axioms C02_meta_wellformed
 #print axioms C02_baseline
 #print axioms C02_restricted
+#print axioms C02_reads_modelled
+#print axioms C02_keys
 end PSA.Props
